@@ -22,6 +22,10 @@ type Zone struct {
 	// NegSOA: answers without records (NODATA, NXDOMAIN) carry the zone's SOA
 	// record in the authority section, as authoritative and recursive servers
 	// do (RFC 2308): TTL NegSOATTL, MINIMUM field NegSOAMin.
+	// Glue > 0: answers to HTTPS questions carry, in the additional section, the
+	// address records of the names their ServiceMode records point at (RFC 9460
+	// 4.2), with TTL Glue (which may be smaller than the TTLs of the answer).
+	Glue      uint32 `json:"glue,omitempty"`
 	NegSOA    bool   `json:"neg_soa,omitempty"`
 	NegSOATTL uint32 `json:"neg_soa_ttl,omitempty"`
 	NegSOAMin uint32 `json:"neg_soa_min,omitempty"`
